@@ -256,6 +256,8 @@ class CounterStyle(dict):
                         initial = ''.join(parts)
                         break
             if initial is None:
+                if is_negative:
+                    counter_value = -counter_value
                 return self.render_value(
                     counter_value, counter['fallback'] or 'decimal',
                     previous_types=previous_types)
